@@ -280,6 +280,8 @@ def main(tier):
     seed = seed_from_env()
     only = os.environ.get("VERIF_ONLY")
     items = [("aug", tier, seed)]
+    # (environments whose reward lives in the episode state - mTSP min-max, MDCPDP - cannot be evaluated by tasks/eval.py
+    # at all: it recomputes rewards from the INITIAL state and raises KeyError; best-of-k on them is judged in C12)
     for skey in ("tsp", "cvrp"):
         for method, mkw in METHODS:
             for bs in (1, 2, 3):
